@@ -851,6 +851,12 @@ func (r *Reader) Markdown() (string, error) {
 
 // MarkdownWithOptions returns HTML content as Markdown with options.
 func (r *Reader) MarkdownWithOptions(opts ExtractOptions) (string, error) {
+	return r.markdown(opts, nil)
+}
+
+// markdown renders the content; mdOpts (may be nil) shifts and caps the
+// heading levels like the other formats do.
+func (r *Reader) markdown(opts ExtractOptions, mdOpts *rag.MarkdownOptions) (string, error) {
 	var result strings.Builder
 
 	elements := r.getElements(opts.NavigationExclusion)
@@ -860,7 +866,20 @@ func (r *Reader) MarkdownWithOptions(opts ExtractOptions) (string, error) {
 			if result.Len() > 0 {
 				result.WriteString("\n\n")
 			}
-			for i := 0; i < elem.Level; i++ {
+			level := elem.Level
+			if mdOpts != nil {
+				level += mdOpts.HeadingLevelOffset
+				if level < 1 {
+					level = 1
+				}
+				if mdOpts.MaxHeadingLevel > 0 && level > mdOpts.MaxHeadingLevel {
+					level = mdOpts.MaxHeadingLevel
+				}
+				if level > 6 {
+					level = 6
+				}
+			}
+			for i := 0; i < level; i++ {
 				result.WriteString("#")
 			}
 			result.WriteString(" ")
@@ -967,7 +986,7 @@ func (r *Reader) MarkdownWithRAGOptions(extractOpts ExtractOptions, mdOpts rag.M
 	}
 
 	// Generate main content
-	md, err := r.MarkdownWithOptions(extractOpts)
+	md, err := r.markdown(extractOpts, &mdOpts)
 	if err != nil {
 		return "", err
 	}
